@@ -1,5 +1,6 @@
 import VncModel.Basic.Proto
 import VncModel.Region.Model
+import VncModel.Region.IterModel
 /-! Line-protocol driver for the region model (C11).  Same script as harness/c11.c.
 
 Registers r0..r63 hold regions (initially empty).  Every region-modifying op prints its result
@@ -101,7 +102,12 @@ def dstep (st : DState) (toks : List String) : DState × List String :=
     | none => bad
   | ["iter", s, rx, ry] =>
     match reg? s, flag? rx, flag? ry with
-    | some s, some rx, some ry => (st, [showRects st.verbose ((get s).rects rx ry)])
+    | some s, some rx, some ry =>
+      -- the small-step model of sraRgnGetReverseIterator / sraRgnIteratorNext (IterModel.lean);
+      -- Props/C11.lean `iter_refines` proves it yields `rects` on well-formed regions
+      match (get s).iterAll rx ry with
+      | some l => (st, [showRects st.verbose l])
+      | none => (st, ["iterator-fault"])
     | _, _, _ => bad
   | ["clip", a, b, c, d, e, f, g, h] =>
     match ints? [a, b, c, d, e, f, g, h] with
